@@ -12,43 +12,43 @@ def PrimHeader : List Fld → Prop
   | (_, occ, t) :: r => occ.many = false ∧ (∃ p, t = .prim p) ∧ PrimHeader r
 
 theorem encFields_prim_mem (delim : Text) (attrs : Attrs) (fields : List Fld) (hp : PrimHeader fields)
-    (n : Text) (occ : Occ) (t : Ty) (hf : (n, occ, t) ∈ fields) (v : Leaf) (hv : getAttr attrs n = .leaf v) :
-    (n, EncVal.one v) ∈ encFields delim [] attrs fields := by
+    (n : Text) (occ : Occ) (p : PK) (hf : (n, occ, .prim p) ∈ fields) (v : Leaf) (hv : getAttr attrs n = .leaf v) :
+    (n, EncVal.one p v) ∈ encFields delim [] attrs fields := by
   induction fields with
   | nil => simp at hf
   | cons f r ih =>
     obtain ⟨fn, focc, ft⟩ := f
     simp only [PrimHeader] at hp
-    obtain ⟨hm, ⟨p, rfl⟩, hr⟩ := hp
+    obtain ⟨hm, ⟨p', rfl⟩, hr⟩ := hp
     simp only [encFields, List.mem_append]
     rcases List.mem_cons.mp hf with h | h
-    · simp only [Prod.mk.injEq] at h
+    · simp only [Prod.mk.injEq, Ty.prim.injEq] at h
       obtain ⟨rfl, rfl, rfl⟩ := h
       left
       simp only [hm, hv, List.nil_append, encTy, joinKey, List.mem_singleton]
     · exact Or.inr (ih hr h)
 
 /-- a declared header member that is set is sent under its name with its exact text -/
-theorem response_header (mime : Text) (hdrFields : List Fld) (hp : PrimHeader hdrFields) (attrs : Attrs)
-    (ret : RetVal) (n : Text) (occ : Occ) (t : Ty) (hf : (n, occ, t) ∈ hdrFields) (v : Leaf) (text : Text)
-    (hv : getAttr attrs n = .leaf v) (ht : hdrText v = some text) :
-    (n, text) ∈ (response mime hdrFields (.obj attrs) ret).1 := by
+theorem response_header (F : Facts03) (mime : Text) (hdrFields : List Fld) (hp : PrimHeader hdrFields) (attrs : Attrs)
+    (ret : RetVal) (n : Text) (occ : Occ) (p : PK) (hf : (n, occ, .prim p) ∈ hdrFields) (v : Leaf) (text : Text)
+    (hv : getAttr attrs n = .leaf v) (ht : hdrText F p v = some text) :
+    (n, text) ∈ (response F mime hdrFields (.obj attrs) ret).1 := by
   simp only [response, hdrPairs, encode, List.mem_cons, List.mem_append, List.mem_flatMap]
   right; left
-  exact ⟨(n, .one v), encFields_prim_mem ['.'] attrs hdrFields hp n occ t hf v hv, by simp [ht]⟩
+  exact ⟨(n, .one p v), encFields_prim_mem ['.'] attrs hdrFields hp n occ p hf v hv, by simp [ht]⟩
 
 /-- the body is the UTF-8 of the value's text, and reads back as that text -/
-theorem response_body (mime : Text) (hdrFields : List Fld) (hdr : Node) (v : Leaf) (text : Text)
-    (ht : leafText v = some text) :
-    (response mime hdrFields hdr (.leaf v)).2 = utf8Enc text ∧
-    utf8Dec (response mime hdrFields hdr (.leaf v)).2 = text := by
+theorem response_body (F : Facts03) (mime : Text) (hdrFields : List Fld) (hdr : Node) (p : PK) (v : Leaf) (text : Text)
+    (ht : leafText F p v = some text) :
+    (response F mime hdrFields hdr (.leaf p v)).2 = utf8Enc text ∧
+    utf8Dec (response F mime hdrFields hdr (.leaf p v)).2 = text := by
   simp [response, retBody, ht, utf8Dec_utf8Enc]
 
 /-- Content-Type first, Content-Length (decimal byte count of the body) last -/
-theorem response_frame (mime : Text) (hdrFields : List Fld) (hdr : Node) (ret : RetVal) :
-    (response mime hdrFields hdr ret).1.head? = some ("Content-Type".toList, mime) ∧
-    (response mime hdrFields hdr ret).1.getLast? =
-      some ("Content-Length".toList, natText (response mime hdrFields hdr ret).2.length) := by
+theorem response_frame (F : Facts03) (mime : Text) (hdrFields : List Fld) (hdr : Node) (ret : RetVal) :
+    (response F mime hdrFields hdr ret).1.head? = some ("Content-Type".toList, mime) ∧
+    (response F mime hdrFields hdr ret).1.getLast? =
+      some ("Content-Length".toList, natText (response F mime hdrFields hdr ret).2.length) := by
   refine ⟨rfl, ?_⟩
   simp only [response]
   rw [← List.cons_append, List.getLast?_append]
